@@ -6,6 +6,7 @@
   * `_unravel` rejects every vector of the wrong length, also for nested shapes.
 -/
 import Scico.Proofs.Wrap
+import Mathlib.Tactic.Ring
 
 namespace Scico.Wrap
 
@@ -303,5 +304,147 @@ theorem valid_of_shape (c : Container α) : (workShape c).Valid ↔ c.shape.Vali
 
 theorem scalarOf_scalar (a : α) : scalarOf (⟨[], [a]⟩ : Arr α) = some a := rfl
 theorem scalarOf_one (a : α) : scalarOf (⟨[1], [a]⟩ : Arr α) = some a := rfl
+
+end Scico.Wrap
+
+/-! ### the gradient: flattening preserves the slot-wise pairing -/
+
+namespace Scico.Wrap
+
+section pairing
+variable {K : Type} [CommSemiring K]
+
+/-- `Σ aᵢ bᵢ` -/
+def dotL (a b : List K) : K := (List.zipWith (· * ·) a b).sum
+
+/-- real pairing of two complex entries: `Re(z) Re(w) + Im(z) Im(w)` -/
+def cxPair (z w : Cx K) : K := z.re * w.re + z.im * w.im
+
+def Val.pair : Val K → Val K → K
+  | .arr a, .arr b => dotL a.data b.data
+  | .blk as, .blk bs => (List.zipWith (fun a b => dotL a.data b.data) as bs).sum
+  | _, _ => 0
+
+def Val.pairC : Val (Cx K) → Val (Cx K) → K
+  | .arr a, .arr b => (List.zipWith cxPair a.data b.data).sum
+  | .blk as, .blk bs => (List.zipWith (fun a b => (List.zipWith cxPair a.data b.data).sum) as bs).sum
+  | _, _ => 0
+
+/-- slot-wise pairing of two containers (every real slot — entry, or real / imaginary part of an
+    entry — multiplied with the corresponding one): the value of the differential `Σ ∂f/∂slot · h_slot` -/
+def Container.pair : Container K → Container K → K
+  | .real x, .real y => Val.pair x y
+  | .cplx x, .cplx y => Val.pairC x y
+  | _, _ => 0
+
+theorem dotL_append {a a' b b' : List K} (h : a.length = a'.length) :
+    dotL (a ++ b) (a' ++ b') = dotL a a' + dotL b b' := by
+  unfold dotL
+  rw [List.zipWith_append h, List.sum_append]
+
+theorem dotL_re_im : ∀ (d d' : List (Cx K)), d.length = d'.length →
+    dotL (d.map Cx.re ++ d.map Cx.im) (d'.map Cx.re ++ d'.map Cx.im) = (List.zipWith cxPair d d').sum := by
+  intro d d' hl
+  rw [dotL_append (by simpa using hl)]
+  induction d generalizing d' with
+  | nil => cases d' <;> simp [dotL]
+  | cons z zs ih =>
+    cases d' with
+    | nil => simp at hl
+    | cons w ws =>
+      have := ih ws (by simpa using hl)
+      simp only [dotL, List.map_cons, List.zipWith_cons_cons, List.sum_cons] at this ⊢
+      rw [← this, cxPair]
+      ring
+
+theorem dotL_flatten : ∀ (bs bs' : List (Arr K)),
+    bs.map Arr.shape = bs'.map Arr.shape → (∀ b ∈ bs, b.WF) → (∀ b ∈ bs', b.WF) →
+    dotL (bs.map Arr.data).flatten (bs'.map Arr.data).flatten =
+      (List.zipWith (fun a b => dotL a.data b.data) bs bs').sum
+  | [], [], _, _, _ => by simp [dotL]
+  | [], _ :: _, h, _, _ => by simp at h
+  | _ :: _, [], h, _, _ => by simp at h
+  | b :: rest, b' :: rest', h, hw, hw' => by
+    simp only [List.map_cons, List.cons.injEq] at h
+    have hb : b.WF := hw b (by simp)
+    have hb' : b'.WF := hw' b' (by simp)
+    have hl : b.data.length = b'.data.length := by
+      unfold Arr.WF at hb hb'
+      rw [hb, hb', h.1]
+    have ih := dotL_flatten rest rest' h.2 (fun x hx => hw x (by simp [hx])) (fun x hx => hw' x (by simp [hx]))
+    simp only [List.map_cons, List.flatten_cons, dotL_append hl, ih, List.zipWith_cons_cons, List.sum_cons]
+
+theorem zipWith_splitArr_pair : ∀ (cs cs' : List (Arr (Cx K))),
+    cs.map Arr.shape = cs'.map Arr.shape → (∀ b ∈ cs, b.WF) → (∀ b ∈ cs', b.WF) →
+    (List.zipWith (fun a b => dotL a.data b.data) (cs.map splitArr) (cs'.map splitArr)).sum =
+      (List.zipWith (fun a b => (List.zipWith cxPair a.data b.data).sum) cs cs').sum
+  | [], [], _, _, _ => by simp
+  | [], _ :: _, h, _, _ => by simp at h
+  | _ :: _, [], h, _, _ => by simp at h
+  | a :: rest, b :: rest', h, hw, hw' => by
+    simp only [List.map_cons, List.cons.injEq] at h
+    have ha : a.WF := hw a (by simp)
+    have hb : b.WF := hw' b (by simp)
+    have hl : a.data.length = b.data.length := by
+      unfold Arr.WF at ha hb
+      rw [ha, hb, h.1]
+    have ih := zipWith_splitArr_pair rest rest' h.2 (fun x hx => hw x (by simp [hx])) (fun x hx => hw' x (by simp [hx]))
+    simp only [List.map_cons, List.zipWith_cons_cons, List.sum_cons, ih]
+    congr 1
+    exact dotL_re_im a.data b.data hl
+
+/-- the flat vectors of two containers of one form pair to the slot-wise pairing of the containers:
+    with `G` the container of partial derivatives that `jax.value_and_grad` returns, the vector
+    `_ravel(G)` handed to scipy represents the same differential, `⟨flat G, flat H⟩ = Σ_slots G·H` -/
+theorem x0flat_pair (G H : Container K) (hG : G.WF) (hH : H.WF) (hform : SameForm G H) :
+    dotL (x0flat G) (x0flat H) = Container.pair G H := by
+  obtain ⟨hs, hk⟩ := hform
+  cases G with
+  | real x =>
+    cases H with
+    | cplx _ => exact absurd hk (by simp)
+    | real y =>
+      cases x with
+      | arr a =>
+        cases y with
+        | arr b => rfl
+        | blk _ => simp [workShape, prepare, shapeOf] at hs
+      | blk as =>
+        cases y with
+        | arr _ => simp [workShape, prepare, shapeOf] at hs
+        | blk bs =>
+          simp only [workShape, prepare, shapeOf, Shape.nested.injEq] at hs
+          simpa [x0flat, prepare, ravel, Container.pair, Val.pair] using dotL_flatten as bs hs hG hH
+  | cplx x =>
+    cases H with
+    | real _ => exact absurd hk (by simp)
+    | cplx y =>
+      cases x with
+      | arr a =>
+        cases y with
+        | arr b =>
+          simp only [workShape, prepare, shapeOf, splitVal, splitArr, Shape.flat.injEq, List.cons.injEq, true_and] at hs
+          have hl : a.data.length = b.data.length := by
+            have h1 : a.data.length = sizeOf a.shape := hG
+            have h2 : b.data.length = sizeOf b.shape := hH
+            rw [h1, h2, hs]
+          simpa [x0flat, prepare, ravel, splitVal, splitArr, Container.pair, Val.pairC] using dotL_re_im a.data b.data hl
+        | blk _ => simp [workShape, prepare, shapeOf, splitVal] at hs
+      | blk cs =>
+        cases y with
+        | arr _ => simp [workShape, prepare, shapeOf, splitVal] at hs
+        | blk cs' =>
+          simp only [workShape, prepare, shapeOf, splitVal, Shape.nested.injEq] at hs
+          have w1 : ∀ b ∈ cs.map splitArr, b.WF := (splitVal_wf (.blk cs) hG).1
+          have w2 : ∀ b ∈ cs'.map splitArr, b.WF := (splitVal_wf (.blk cs') hH).1
+          have h1 := dotL_flatten (cs.map splitArr) (cs'.map splitArr) hs w1 w2
+          have hs' : cs.map Arr.shape = cs'.map Arr.shape := by
+            have := splitVal_shape_inj (.blk cs) (.blk cs') (by simp [splitVal, shapeOf, hs])
+            simpa [shapeOf] using this
+          simp only [x0flat, prepare, ravel, splitVal, Container.pair, Val.pairC]
+          rw [h1]
+          exact zipWith_splitArr_pair cs cs' hs' hG hH
+
+end pairing
 
 end Scico.Wrap
